@@ -9,12 +9,13 @@ from vp import core
 
 from props import c04_gen as G
 from props import c04_ir as I
+from props import c04_sk as S
 
 META = {
     "title": "Generic textual form round-trips every valid IR",
     "category": "proof",
     "design_ref": "DESIGN.md §5 C04",
-    "lean_modules": ["XdslProofs.C04"],
+    "lean_modules": ["XdslProofs.C04", "XdslProofs.C04Skeleton"],
     "text": (
         "Lean theorems on the name layer of the generic form (XdslModel/Names.lean = extract_valid_name, "
         "Printer.print_ssa_value/_populate_block_name/print_region/enter_scope, Parser hint storing): "
@@ -25,7 +26,22 @@ META = {
         "for a printed name is the original hint (reparse_allocate, scoped_reparse, reparse_region) and "
         "therefore printing the re-parsed IR allocates exactly the same names (print_idempotent, "
         "scoped_idempotent, region_idempotent); accepted hints are (accepted_clean) "
-        "fixed points of the suffix stripping; unrepaired_*_counterexample record why one-suffix stripping fails. The model is diffed against the real printer/parser on "
+        "fixed points of the suffix stripping; unrepaired_*_counterexample record why one-suffix stripping fails. "
+        "Lean theorems on the token skeleton of the generic operation form (XdslModel/Skeleton.lean = "
+        "Printer.print_op_with_default_format/print_region/print_block/print_function_type and "
+        "Parser._parse_generic_operation/parse_optional_region/_parse_block with the symbol tables "
+        "ssa_values/forward_ssa_references/blocks/forward_block_references; attributes and types are opaque "
+        "token groups): skeleton_syntax_roundtrip (reading the printed token stream gives the printed tree), "
+        "skeleton_roundtrip_scoped / skeleton_roundtrip (an IR that respects textual scoping, printed with names "
+        "that are distinct among values live together and among the blocks of a region — in particular with any "
+        "injective naming, skeleton_roundtrip_on: injective on the values/blocks that occur — parses back to an "
+        "isomorphic IR; multi-block regions and forward references to values and blocks included), "
+        "skeleton_reprint / skeleton_roundtrip_text (the isomorphic copy named correspondingly prints the same "
+        "tokens), skeleton_roundtrip_allocated (one printer scope: names from Names.allocate for any accepted "
+        "hints), skeleton_roundtrip_needs_distinct_names. Every generated/corpus/pass-output module is serialised into the model: "
+        "printSk must equal the real printer's text lexed by the real MLIRLexer with attribute/type groups "
+        "collapsed, the hypothesis `admissible` must hold for it, and parseSk of the real token stream must "
+        "build the structure the real parser builds. The names model is diffed against the real printer/parser on "
         "every hint list over a small adversarial alphabet up to the length bound (values, blocks, "
         "nested isolated scopes) and on random nested programs. The whole property (equivalent IR after "
         "print→parse in a fresh Context, identical text on re-print, print twice, print clone) is "
@@ -34,10 +50,18 @@ META = {
     ),
     "technique": "Lean 4 proofs on the name-allocation model + exhaustive/random differential correspondence + direct round-trip oracle over generated programs, the .mlir corpus and pass outputs",
     "level_note": (
-        "Proved: name allocation / re-parse of names (all hint lists, all scope nestings). Not proved, "
-        "only exercised by the round-trip oracle: the token skeleton of the generic operation form and "
-        "every attribute/type printer+parser of the ~80 dialects (modelled, not verified; literals are "
-        "C06). Trusted: hand-written model XdslModel/Names.lean (tied by correspondence), Python `re` "
+        "Proved: name allocation / re-parse of names (all hint lists, all scope nestings); the token skeleton "
+        "of the generic operation form with attributes/types as opaque balanced token groups (the parser model "
+        "is the grammar followed by the symbol-table actions in the parser's order — the same partial function "
+        "as the interleaved real parser; a forward placeholder and the definition replacing it are one node; "
+        "result tuples `%x:n`, locations and custom formats are outside the model; the names theorems and the "
+        "skeleton theorems are composed for one printer scope only — nested IsolatedFromAbove scopes and block "
+        "labels are linked through the checked hypothesis `admissible`, which the harness evaluates on the names "
+        "the real printer gave). Not proved, only exercised by the "
+        "round-trip oracle: every attribute/type printer+parser of the ~80 dialects (modelled, not verified; "
+        "literals are C06). Trusted: hand-written models XdslModel/Names.lean and XdslModel/Skeleton.lean "
+        "(tied by correspondence), the span-recording printer subclass and serialiser in "
+        "harness/props/c04_sk.py, Python `re` "
         "matching the transcribed regexes, the canonical serialiser in harness/props/c04_ir.py. "
         "Equivalence is as the quantifier says: property equal to its declared default ≡ absent; "
         "inherent attribute in the attribute dictionary ≡ property (for such IR the re-printed text is "
@@ -52,10 +76,13 @@ META = {
         "have the same stripped stem or a hint has the default form bb<n>/a numeric suffix. random: "
         "nested programs with multi-block regions, forward uses, isolated scopes; non-trivial = ≥2 equal "
         "stems in one scope. corpus/pass: every chunk that parses and verifies; non-trivial = has ≥1 "
-        "named value or block, or ≥1 attribute. Distinct = distinct spec / distinct (file, chunk[, pass])."
+        "named value or block, or ≥1 attribute. Distinct = distinct spec / distinct (file, chunk[, pass]). "
+        "skeleton: every module of the families above that prints and re-parses, plus hand-written corner "
+        "texts and token-level mutations of printed streams (real parser vs parseSk: accept/reject and structure)."
     ),
     "trusted_base": [
         "hand-written Lean model XdslModel/Names.lean (fixed printer/parser name logic), tied by correspondence",
+        "hand-written Lean model XdslModel/Skeleton.lean (generic-form printer/parser skeleton), tied by correspondence; serialiser harness/props/c04_sk.py",
         "canonical IR serialiser + round-trip oracle harness/props/c04_ir.py",
     ],
     "budget": {"quick": 110, "thorough": 1150},
@@ -81,7 +108,7 @@ def stem(raw: str | None) -> str | None:
 # ---------------------------------------------------------------------------------------------
 
 class CaseResult:
-    __slots__ = ("status", "lines", "impl", "rt", "ob", "reparse_lines", "reparse_impl", "text")
+    __slots__ = ("status", "lines", "impl", "rt", "ob", "reparse_lines", "reparse_impl", "text", "module")
 
     def __init__(self) -> None:
         self.status = "ok"
@@ -92,6 +119,7 @@ class CaseResult:
         self.reparse_lines: list[str] = []
         self.reparse_impl: list[str] = []
         self.text = ""
+        self.module = None
 
 
 def classify_rt(rt: I.RT) -> tuple[str, str, str]:
@@ -175,6 +203,7 @@ def run_spec(spec: dict[str, Any]) -> CaseResult:
         return res
     rt = I.roundtrip(module)
     res.rt = rt
+    res.module = module
     text = rt.text1 or I.print_generic(module)
     res.text = text
     ob = G.observe(module, text)
@@ -277,12 +306,14 @@ def shrink_spec(spec: dict[str, Any], sig: str, r0: CaseResult, max_steps: int =
 class Batch:
     """collects cases, runs the Lean model once over all of them, reports"""
 
-    def __init__(self, ctx: core.Ctx, family: str):
+    def __init__(self, ctx: core.Ctx, family: str, mut: "S.MutBatch | None" = None, mut_p: float = 0.0, mut_k: int = 0,
+                 sk_stride: int = 1):
         self.ctx, self.family = ctx, family
         self.lines: list[str] = []
         self.impl: list[str] = []
         self.spans: list[tuple[int, int, Any]] = []
         self.n = 0
+        self.sk = S.SkBatch(ctx, family, mut, mut_p, mut_k, sk_stride)
 
     def add(self, spec: dict[str, Any], nontrivial: bool, key: Any) -> CaseResult:
         ctx = self.ctx
@@ -307,6 +338,9 @@ class Batch:
         elif r.ob.inconsistent:
             ctx.fail("xdsl.printer.Printer.print_ssa_value", "one value or block printed under two names",
                      {"family": self.family, "spec": spec}, r.ob.inconsistent, r.text[:1500], None)
+        if r.rt.ok or r.rt.m2 is not None:
+            self.sk.add(r.module, {"spec": spec}, r.rt.ok, r.rt.m2)
+        r.module = None
         if r.ob.problem is not None:
             if r.rt.ok:
                 raise core.InfraError(f"C04 observer lost track of the printed text: {r.ob.problem}\n{r.text}")
@@ -318,6 +352,7 @@ class Batch:
         return r
 
     def finish(self) -> None:
+        self.sk.finish()
         if not self.lines:
             return
         ctx = self.ctx
@@ -369,8 +404,9 @@ def run_accept(ctx: core.Ctx, nrandom: int) -> None:
     ctx.sample({"family": "accept", "raw": "a_1_2", "impl": impl[raws.index("a_1_2")]})
 
 
-def run_names(ctx: core.Ctx, val_len: int, ext_len: int, blk_len: int, blk_ext_len: int, scoped_len: int) -> None:
-    b = Batch(ctx, "values")
+def run_names(ctx: core.Ctx, val_len: int, ext_len: int, blk_len: int, blk_ext_len: int, scoped_len: int,
+              sk_stride: int = 1) -> None:
+    b = Batch(ctx, "values", sk_stride=sk_stride)
     for n in range(1, val_len + 1):
         for raws in itertools.product(VAL_ALPHA_CORE, repeat=n):
             b.add(G.spec_values(raws), nontrivial_hints(raws), raws)
@@ -397,15 +433,15 @@ def run_names(ctx: core.Ctx, val_len: int, ext_len: int, blk_len: int, blk_ext_l
     b.finish()
     ctx.sample({"family": "blocks", "raw_hints": [None, "bb0"], "printed": run_spec(G.spec_blocks((None, "bb0"), False, False)).impl})
 
-    b = Batch(ctx, "scoped")
+    b = Batch(ctx, "scoped", sk_stride=sk_stride)
     for seq in G.scoped_event_seqs([None, "a", "a_1_2"], scoped_len):
         raws = [e[1] for e in seq if e[0] == "val"]
         b.add(G.spec_scoped(seq), nontrivial_hints(raws), seq)
     b.finish()
 
 
-def run_random(ctx: core.Ctx, n: int) -> None:
-    b = Batch(ctx, "random")
+def run_random(ctx: core.Ctx, n: int, mut: "S.MutBatch | None" = None, mut_p: float = 0.0, mut_k: int = 0) -> None:
+    b = Batch(ctx, "random", mut, mut_p, mut_k)
     for k in range(n):
         if ctx.time_left() < 20:
             break
@@ -431,10 +467,12 @@ def has_inherent_attr_in_dict(module) -> bool:
     return False
 
 
-def check_module(ctx: core.Ctx, module, case: dict[str, Any], family: str) -> bool:
+def check_module(ctx: core.Ctx, module, case: dict[str, Any], family: str, sk: "S.SkBatch | None" = None) -> bool:
     """the direct oracle of the property on one verified module; True = holds"""
     ctx.ev()
     rt = I.roundtrip(module, with_metadata=True)
+    if sk is not None and (rt.ok or rt.m2 is not None):
+        sk.add(module, case, rt.ok, rt.m2)
     if rt.ok:
         return True
     if rt.stage == "reprint" and has_inherent_attr_in_dict(module):
@@ -454,16 +492,38 @@ def check_module(ctx: core.Ctx, module, case: dict[str, Any], family: str) -> bo
     return False
 
 
+def run_corner(ctx: core.Ctx, mut: "S.MutBatch", k: int) -> None:
+    """hand-written corner texts of the generic form: the direct oracle, the skeleton leg, mutations"""
+    sk = S.SkBatch(ctx, "corner")
+    for i, text in enumerate(S.CORNER_TEXTS):
+        try:
+            m = I.parse_module(text)
+            m.verify()
+        except Exception:  # noqa: BLE001
+            # the text is only a means to build IR; a parser that rejects it is found by the other families
+            ctx.count("corner.unparsed")
+            continue
+        ctx.nt(("corner", i))
+        check_module(ctx, m, {"family": "corner", "corner": i, "text": text}, "corner", sk)
+    cases = [c for c, _ in sk.cases]
+    sk.finish()
+    for c in cases:
+        mut.add(c, k)
+
+
 def module_nontrivial(text: str) -> bool:
     return bool(re.search(r"[%^][A-Za-z_$.-]", text)) or "{" in text
 
 
-def run_corpus(ctx: core.Ctx, stride: int, pass_names: list[str], pass_stride: int) -> None:
+def run_corpus(ctx: core.Ctx, stride: int, pass_names: list[str], pass_stride: int,
+               mut: "S.MutBatch | None" = None, mut_p: float = 0.0, mut_k: int = 0, sk_stride: int = 1) -> None:
     chunks = I.corpus_chunks()
     ctx.count("corpus.chunks", len(chunks))
     sel = [c for k, c in enumerate(chunks) if stride <= 1 or (k + ctx.seed) % stride == 0]
     passes = load_passes(pass_names)
     nmod = 0
+    sk = S.SkBatch(ctx, "corpus", mut, mut_p, mut_k, sk_stride)
+    skp = S.SkBatch(ctx, "pass")
     for k, (path, idx, text) in enumerate(sel):
         if ctx.time_left() < 15:
             ctx.count("corpus.skipped_for_time", len(sel) - k)
@@ -476,7 +536,7 @@ def run_corpus(ctx: core.Ctx, stride: int, pass_names: list[str], pass_stride: i
         ctx.count("corpus.verified")
         if module_nontrivial(text):
             ctx.nt(("corpus", path, idx))
-        check_module(ctx, m, {"family": "corpus", "file": path, "chunk": idx}, "corpus")
+        check_module(ctx, m, {"family": "corpus", "file": path, "chunk": idx}, "corpus", sk)
         if passes and (k % pass_stride == 0):
             for pname, pcls in passes:
                 if ctx.time_left() < 15:
@@ -488,7 +548,9 @@ def run_corpus(ctx: core.Ctx, stride: int, pass_names: list[str], pass_stride: i
                 ctx.count("pass.outputs")
                 ctx.programs += 1
                 ctx.nt(("pass", pname, path, idx))
-                check_module(ctx, out, {"family": "pass", "pass": pname, "file": path, "chunk": idx}, "pass")
+                check_module(ctx, out, {"family": "pass", "pass": pname, "file": path, "chunk": idx}, "pass", skp)
+    sk.finish()
+    skp.finish()
     ctx.sample({"family": "corpus", "verified_modules": nmod})
 
 
@@ -551,16 +613,22 @@ def run(ctx: core.Ctx) -> None:
         timing[name] = round(time.time() - t, 1)
 
     timed("lean", ctx.lean)
+    mut = S.MutBatch(ctx)
     if ctx.tier == "quick":
         timed("accept", run_accept, ctx, 300)
-        timed("names", run_names, ctx, val_len=4, ext_len=2, blk_len=3, blk_ext_len=2, scoped_len=4)
-        timed("random", run_random, ctx, 500)
-        timed("corpus", run_corpus, ctx, stride=1, pass_names=PASSES_QUICK, pass_stride=7)
+        timed("corner", run_corner, ctx, mut, 25)
+        timed("names", run_names, ctx, val_len=4, ext_len=2, blk_len=3, blk_ext_len=2, scoped_len=4, sk_stride=3)
+        timed("random", run_random, ctx, 500, mut, 0.15, 8)
+        # the skeleton leg sees every second verified chunk per run (which half depends on the seed)
+        timed("corpus", run_corpus, ctx, stride=1, pass_names=PASSES_QUICK, pass_stride=7, mut=mut, mut_p=0.1, mut_k=8,
+              sk_stride=2)
     else:
         timed("accept", run_accept, ctx, 5000)
+        timed("corner", run_corner, ctx, mut, 400)
         timed("names", run_names, ctx, val_len=5, ext_len=3, blk_len=4, blk_ext_len=3, scoped_len=5)
-        timed("random", run_random, ctx, 8000)
-        timed("corpus", run_corpus, ctx, stride=1, pass_names=PASSES_THOROUGH, pass_stride=1)
+        timed("random", run_random, ctx, 8000, mut, 0.2, 20)
+        timed("corpus", run_corpus, ctx, stride=1, pass_names=PASSES_THOROUGH, pass_stride=1, mut=mut, mut_p=0.5, mut_k=20)
+    timed("mutations", mut.finish)
     ctx.extra["timing_s"] = timing
     ctx.exhaustive = True
     ctx.extra["exhaustive_scope"] = (
@@ -572,6 +640,23 @@ def replay(ctx: core.Ctx, body: dict) -> int:
     case = body["case"]
     fam = case.get("family")
     bad = False
+    if case.get("skeleton"):
+        if fam == "mutation":
+            return S.replay_mutation(ctx, case)
+        if fam in ("values", "blocks", "scoped", "random"):
+            m = G.build(case["spec"])
+        elif fam == "corner":
+            m = I.parse_module(case["text"])
+        elif fam in ("corpus", "pass"):
+            text = (core.REPO / case["file"]).read_text().split("// -----")[case["chunk"]]
+            m = apply_pass(dict(load_passes([case["pass"]]))[case["pass"]], text) if fam == "pass" else I.parse_verified(text)
+        else:
+            print("unknown skeleton replay case", case)
+            return 2
+        if m is None:
+            print("module no longer parses/verifies")
+            return 0
+        return S.replay_module(ctx, m, fam)
     if fam in ("values", "blocks", "scoped", "random"):
         r = run_spec(case["spec"])
         print("status:", r.status)
@@ -598,8 +683,8 @@ def replay(ctx: core.Ctx, body: dict) -> int:
             impl = "raise ValueError"
         model = ctx.model("names", ["accept " + ",".join(str(ord(c)) for c in raw)])[0]
         print("raw:", repr(raw), "implementation:", impl, "model:", model)
-    elif fam in ("corpus", "pass"):
-        text = (core.REPO / case["file"]).read_text().split("// -----")[case["chunk"]]
+    elif fam in ("corpus", "pass", "corner"):
+        text = case["text"] if fam == "corner" else (core.REPO / case["file"]).read_text().split("// -----")[case["chunk"]]
         if fam == "pass":
             p = dict(load_passes([case["pass"]]))[case["pass"]]
             m = apply_pass(p, text)
